@@ -371,7 +371,8 @@ impl EncodingVersion for EncodingVersion1 {
             return Self::deserialize_mmember(deserializer, member, dynamic_data);
         }
 
-        Err(XTypesError::InvalidData)
+        // The discriminator selects no member and there is no default: the union holds only its discriminator
+        Ok(())
     }
 
     /// Extensibility APPENDABLE (Collection or Aggregated types), version 1
@@ -567,7 +568,8 @@ impl EncodingVersion for EncodingVersion2 {
             return Self::deserialize_mmember(deserializer, member, dynamic_data);
         }
 
-        Err(XTypesError::InvalidData)
+        // The discriminator selects no member and there is no default: the union holds only its discriminator
+        Ok(())
     }
 
     /// Extensibility APPENDABLE (Collection or Aggregated types), version 2
@@ -1199,7 +1201,8 @@ impl<'a, E: EndiannessRead, V: EncodingVersion> XTypesDeserializer<'a, E, V> {
             return self.deserialize_fmember(member, dynamic_data);
         }
 
-        Err(XTypesError::InvalidData)
+        // The discriminator selects no member and there is no default: the union holds only its discriminator
+        Ok(())
     }
 }
 
